@@ -22,6 +22,7 @@ import (
 	"sort"
 	"strings"
 	"sync"
+	"sync/atomic"
 	"testing"
 	"time"
 
@@ -45,6 +46,7 @@ type vSignal[T any, P any] struct {
 	term    func(P) string
 	items   func(P) []string
 	gen     func(*vGen) P
+	mk      func(*vGen, int) P // a payload with exactly n items
 	split   func(int, T) T
 	newProc func(cfg *Config, sink func(context.Context, T) error) (*batchProcessor[T], func(context.Context, T) error, error)
 }
@@ -52,7 +54,7 @@ type vSignal[T any, P any] struct {
 func vLogsSignal() vSignal[plog.Logs, []vRes3] {
 	return vSignal[plog.Logs, []vRes3]{
 		sig: 0, name: "logs", build: vBuildLogs, read: vReadLogs, term: vTerm3, items: vItems3,
-		gen: func(g *vGen) []vRes3 { return g.payload3() }, split: splitLogs,
+		gen: func(g *vGen) []vRes3 { return g.payload3() }, mk: vMk3, split: splitLogs,
 		newProc: func(cfg *Config, sink func(context.Context, plog.Logs) error) (*batchProcessor[plog.Logs], func(context.Context, plog.Logs) error, error) {
 			next, err := consumer.NewLogs(sink)
 			if err != nil {
@@ -71,7 +73,7 @@ func vLogsSignal() vSignal[plog.Logs, []vRes3] {
 func vTracesSignal() vSignal[ptrace.Traces, []vRes3] {
 	return vSignal[ptrace.Traces, []vRes3]{
 		sig: 1, name: "traces", build: vBuildTraces, read: vReadTraces, term: vTerm3, items: vItems3,
-		gen: func(g *vGen) []vRes3 { return g.payload3() }, split: splitTraces,
+		gen: func(g *vGen) []vRes3 { return g.payload3() }, mk: vMk3, split: splitTraces,
 		newProc: func(cfg *Config, sink func(context.Context, ptrace.Traces) error) (*batchProcessor[ptrace.Traces], func(context.Context, ptrace.Traces) error, error) {
 			next, err := consumer.NewTraces(sink)
 			if err != nil {
@@ -90,7 +92,7 @@ func vTracesSignal() vSignal[ptrace.Traces, []vRes3] {
 func vMetricsSignal() vSignal[pmetric.Metrics, []vRes4] {
 	return vSignal[pmetric.Metrics, []vRes4]{
 		sig: 2, name: "metrics", build: vBuildMetrics, read: vReadMetrics, term: vTerm4, items: vItems4,
-		gen: func(g *vGen) []vRes4 { return g.payload4() }, split: splitMetrics,
+		gen: func(g *vGen) []vRes4 { return g.payload4() }, mk: vMk4, split: splitMetrics,
 		newProc: func(cfg *Config, sink func(context.Context, pmetric.Metrics) error) (*batchProcessor[pmetric.Metrics], func(context.Context, pmetric.Metrics) error, error) {
 			next, err := consumer.NewMetrics(sink)
 			if err != nil {
@@ -222,7 +224,28 @@ func vDiff(got, want []string) string {
 // ---- (2) processor runs ---------------------------------------------------------------------------
 var vKeyPool = [][]string{{"k1", "K1"}, {"k2", "K2", "k2"}, {"tenant-id", "Tenant-Id", "TENANT-ID"}}
 
-func vValID(s string) uint64 { return uint64(s[0]-'a') + 1 }
+// metadata values: opaque to the model (an N id); the pool contains values that differ only in how they
+// split into list elements, in case, in white space or by an empty string, so that ANY non-injective way of
+// forming the shard key from the value list (joining, sorting, de-duplicating, first value only, lower-casing,
+// trimming, dropping empties) merges two groups that must stay apart.
+var vValPool = []string{"a", "b", "c", "a,b", "", "A", "a b", "ab", " a", "a;b", "a,", ",a"}
+
+func vValID(s string) uint64 {
+	for i, v := range vValPool {
+		if v == s {
+			return uint64(i + 1)
+		}
+	}
+	return 999
+}
+
+// value lists by family; nil = key absent (distinct from the explicit empty list only in the generator)
+var vValFamilies = [][][]string{
+	{{"a", "b"}, {"a,b"}, {"b", "a"}, {"a;b"}, {"a b"}, {"ab"}, {"a"}, {"a", ""}, {"a,"}, {"", "a"}, {",a"}}, // element boundaries
+	{nil, {}, {""}, {"a", ""}, {"", "a"}, {"a"}, {"", ""}, {"a,"}},                                              // absent / empty / empty string
+	{{"a"}, {"A"}, {" a"}, {"a", "a"}, {"b"}, {"a", "b"}, {"b", "a"}},                                          // normalisation, duplicates, order
+	{{"a"}, {"b"}, {"c"}, {"a", "b"}, nil},                                                                      // plain
+}
 
 func vTupleTerm(vals [][]string) string {
 	var it []string
@@ -268,7 +291,10 @@ func vGenCfg(rng *vRand, timeoutReal time.Duration, timeoutTerm int) vCfg {
 		keys = append(keys, v[rng.Intn(len(v))])
 		low = append(low, v[0])
 	}
-	limit := rng.Intn(4)
+	limit := 0
+	if rng.Bool() {
+		limit = 1 + rng.Intn(4)
+	}
 	cfg := &Config{Timeout: timeoutReal, SendBatchSize: uint32(size), SendBatchMaxSize: uint32(max),
 		MetadataKeys: keys, MetadataCardinalityLimit: uint32(limit)}
 	ks := make([]string, len(keys))
@@ -279,26 +305,17 @@ func vGenCfg(rng *vRand, timeoutReal time.Duration, timeoutTerm int) vCfg {
 	return vCfg{cfg: cfg, term: term, keysLow: low, timer: timeoutReal != 0 && size != 0}
 }
 
-func vGenMD(rng *vRand) (map[string][]string, string) {
+func vGenMD(rng *vRand, fam int) (map[string][]string, string) {
 	md := map[string][]string{}
 	var it []string
 	for _, v := range vKeyPool {
-		var vals []string
-		switch rng.Pick(2, 1, 3, 3, 1, 1, 1) {
-		case 0:
+		f := vValFamilies[fam%len(vValFamilies)]
+		if rng.Intn(100) >= 70 {
+			f = vValFamilies[rng.Intn(len(vValFamilies))]
+		}
+		vals := f[rng.Intn(len(f))]
+		if vals == nil {
 			continue // key absent
-		case 1:
-			vals = []string{}
-		case 2:
-			vals = []string{"a"}
-		case 3:
-			vals = []string{"b"}
-		case 4:
-			vals = []string{"a", "b"}
-		case 5:
-			vals = []string{"b", "a"}
-		case 6:
-			vals = []string{"c"}
 		}
 		k := v[rng.Intn(len(v))]
 		md[k] = vals
@@ -329,6 +346,7 @@ func vTupleOf(md map[string][]string, keysLow []string) string {
 }
 
 type vExport struct {
+	extra   string // keys of the export context that are not configured metadata keys
 	tuple   string
 	payload string
 	items   []string
@@ -371,6 +389,38 @@ func vCtxTuple(ctx context.Context, keysLow []string) string {
 	return vTupleTerm(vals)
 }
 
+// vCtxExtra lists the keys of the export context's client metadata that are not configured keys: a batch is
+// sent with exactly its group's metadata, nothing else of the producer's metadata may leak into it.
+func vCtxExtra(ctx context.Context, keysLow []string) string {
+	var extra []string
+	for k := range client.FromContext(ctx).Metadata.Keys() {
+		ok := false
+		for _, c := range keysLow {
+			if c == k {
+				ok = true
+			}
+		}
+		if !ok {
+			extra = append(extra, k)
+		}
+	}
+	sort.Strings(extra)
+	return strings.Join(extra, ",")
+}
+
+func vMk3(g *vGen, n int) []vRes3 {
+	return []vRes3{{c: g.ctx(), scopes: []vScope3{{c: g.ctx(), items: g.ids(n)}}}}
+}
+
+func vMk4(g *vGen, n int) []vRes4 {
+	m := g.metric(n)
+	if m.kind == 0 {
+		m.kind = 1
+		m.pts = g.ids(n)
+	}
+	return []vRes4{{c: g.ctx(), scopes: []vScope4{{c: g.ctx(), ms: []vMetric{m}}}}}
+}
+
 func vWait(cond func() bool, d time.Duration) bool {
 	dl := time.Now().Add(d)
 	for !cond() {
@@ -406,10 +456,10 @@ func vQuiesce[T any](bp *batchProcessor[T], empty func() T) bool {
 		sh := sh
 		select {
 		case sh.newItem <- empty():
-		case <-time.After(20 * time.Second):
+		case <-time.After(vDL(20 * time.Second)):
 			return false
 		}
-		ok = vWait(func() bool { return len(sh.newItem) == 0 }, 20*time.Second) && ok
+		ok = vWait(func() bool { return len(sh.newItem) == 0 }, vDL(20*time.Second)) && ok
 	}
 	return ok
 }
@@ -424,10 +474,28 @@ type vOp[P any] struct {
 const vLongTimeout = time.Hour
 
 // once a timer flush has failed, later timer steps wait only briefly (keeps a broken tree's run short)
-var vTimerBroken bool
+var vTimerBroken atomic.Bool
+
+// a shard goroutine that wedges (e.g. blocks on its timer channel) makes every later wait run into its deadline:
+// after the first such failure the deadlines shrink, after five the remaining processor runs are skipped (the
+// recorded failures are the verdict; this only bounds the time spent on a tree that is already known broken)
+var vStuckN atomic.Int32
+
+func vStuck() { vStuckN.Add(1) }
+
+func vDL(d time.Duration) time.Duration {
+	if vStuckN.Load() > 0 {
+		return 500 * time.Millisecond
+	}
+	return d
+}
 
 func vRunCases[T any, P any](t *testing.T, out *vOut, rng *vRand, sg vSignal[T, P], n int) {
 	for c := 0; c < n; c++ {
+		if vStuckN.Load() >= 5 {
+			out.Stat(sg.name+".runs_skipped_after_stuck", 1)
+			continue
+		}
 		timeoutReal, timeoutTerm := time.Duration(0), 0
 		if rng.Bool() {
 			timeoutReal, timeoutTerm = vLongTimeout, 1000
@@ -438,13 +506,15 @@ func vRunCases[T any, P any](t *testing.T, out *vOut, rng *vRand, sg vSignal[T, 
 		}
 		g := &vGen{r: rng}
 		nops := 1 + rng.Intn(10)
+		fam := rng.Intn(len(vValFamilies))
+		out.Stat(fmt.Sprintf("%s.md_family_%d", sg.name, fam), 1)
 		var script []vOp[P]
 		for i := 0; i < nops; i++ {
 			if vc.timer && rng.Intn(100) < 15 {
 				script = append(script, vOp[P]{timer: true})
 				continue
 			}
-			md, mdTerm := vGenMD(rng)
+			md, mdTerm := vGenMD(rng, fam)
 			script = append(script, vOp[P]{md: md, mdTerm: mdTerm, p: sg.gen(g)})
 		}
 		vRunOne(t, out, sg, vc, script)
@@ -455,7 +525,7 @@ func vRunOne[T any, P any](t *testing.T, out *vOut, sg vSignal[T, P], vc vCfg, s
 	sink := &vSink{perTuple: map[string]int{}}
 	bp, consume, err := sg.newProc(vc.cfg, func(ctx context.Context, d T) error {
 		ir := sg.read(d)
-		sink.add(vExport{tuple: vCtxTuple(ctx, vc.keysLow), payload: sg.term(ir), items: sg.items(ir), at: time.Now()})
+		sink.add(vExport{extra: vCtxExtra(ctx, vc.keysLow), tuple: vCtxTuple(ctx, vc.keysLow), payload: sg.term(ir), items: sg.items(ir), at: time.Now()})
 		return nil
 	})
 	if err != nil {
@@ -486,6 +556,7 @@ func vRunOne[T any, P any](t *testing.T, out *vOut, sg vSignal[T, P], vc vCfg, s
 			stTerms = append(stTerms, "STimer")
 			out.Stat(sg.name+".op_timer", 1)
 			if !vQuiesce(bp, empty) {
+				vStuck()
 				fail("stuck", "a shard did not take an item from its channel within 20 s")
 				continue
 			}
@@ -498,11 +569,11 @@ func vRunOne[T any, P any](t *testing.T, out *vOut, sg vSignal[T, P], vc vCfg, s
 					out.Stat(sg.name+".timer_fired_with_pending", 1)
 					sh.timer.Reset(time.Nanosecond) // logical time advances to the shard's deadline
 					wait := 15 * time.Second
-					if vTimerBroken {
+					if vTimerBroken.Load() {
 						wait = 300 * time.Millisecond
 					}
 					if !vWait(func() bool { return sink.count(tp) >= accepted[tp] }, wait) {
-						vTimerBroken = true
+						vTimerBroken.Store(true)
 						fail("timer-flush", fmt.Sprintf("timer fired with %d items pending for tuple %s; after the wait %d are still not emitted",
 							accepted[tp]-sink.count(tp), tp, accepted[tp]-sink.count(tp)))
 					}
@@ -515,7 +586,17 @@ func vRunOne[T any, P any](t *testing.T, out *vOut, sg vSignal[T, P], vc vCfg, s
 		tagged := sg.items(op.p)
 		tp := vTupleOf(op.md, vc.keysLow)
 		ctx := client.NewContext(context.Background(), client.Info{Metadata: client.NewMetadata(op.md)})
-		err := consume(ctx, sg.build(op.p))
+		var err error
+		cdone := make(chan error, 1)
+		go func(d T) { cdone <- consume(ctx, d) }(sg.build(op.p))
+		select {
+		case err = <-cdone:
+		case <-time.After(vDL(20 * time.Second)):
+			vStuck()
+			fail("stuck", "Consume did not return within 20 s (the shard no longer takes items from its channel)")
+			results = append(results, "0")
+			continue
+		}
 		wantRefuse := len(vc.keysLow) > 0 && limit > 0 && !isKnown(tp) && len(known) >= limit
 		if err != nil {
 			results = append(results, "1")
@@ -543,18 +624,24 @@ func vRunOne[T any, P any](t *testing.T, out *vOut, sg vSignal[T, P], vc vCfg, s
 	if vQuiesce(bp, empty) {
 		for tp, a := range accepted {
 			pending := a - sink.count(tp)
+			if pending < 0 {
+				fail("isolation", fmt.Sprintf("tuple %s: %d items accepted but %d emitted under this export context: items of another group were sent with it", tp, a, sink.count(tp)))
+				continue
+			}
 			if vc.timer && pending >= int(vc.cfg.SendBatchSize) || !vc.timer && pending != 0 {
 				fail("size-trigger", fmt.Sprintf("tuple %s: %d items pending at quiescence with send_batch_size %d, timer=%v", tp, pending, vc.cfg.SendBatchSize, vc.timer))
 			}
 		}
 	} else {
+		vStuck()
 		fail("stuck", "a shard did not take an item from its channel within 20 s")
 	}
 	done := make(chan struct{})
 	go func() { _ = bp.Shutdown(context.Background()); close(done) }()
 	select {
 	case <-done:
-	case <-time.After(30 * time.Second):
+	case <-time.After(vDL(30 * time.Second)):
+		vStuck()
 		fail("stuck", "Shutdown did not return within 30 s")
 	}
 	sink.mu.Lock()
@@ -572,6 +659,9 @@ func vRunOne[T any, P any](t *testing.T, out *vOut, sg vSignal[T, P], vc vCfg, s
 		groups[e.tuple] = append(groups[e.tuple], e.payload)
 		for _, it := range e.items {
 			emittedTagged = append(emittedTagged, e.tuple+"|"+it)
+		}
+		if e.extra != "" {
+			fail("export-metadata", fmt.Sprintf("a batch of tuple %s was exported with client-metadata keys that are not configured: %s", e.tuple, e.extra))
 		}
 		if m := int(vc.cfg.SendBatchMaxSize); m > 0 && len(e.items) > m {
 			fail("max-size", fmt.Sprintf("a batch of %d items was emitted with send_batch_max_size %d", len(e.items), m))
@@ -604,69 +694,164 @@ func vRunOne[T any, P any](t *testing.T, out *vOut, sg vSignal[T, P], vc vCfg, s
 	}
 }
 
-// ---- (3) real timer: pending items are flushed by the timeout alone ----------------------------------
+// ---- (3) real timers: whatever the history of the shard (idle periods with nothing pending, timeout flushes,
+// size-triggered sends, remainders after a max-size split, a rarely used metadata group), items that stay
+// below send_batch_size are emitted by the timeout alone.  Scripts over {gap, small arrival, big arrival};
+// after every arrival the harness waits (generous margin: only "never flushed" fails) until everything accepted
+// so far has reached the sink.  The timers here are the real ones: a timer that is not re-armed on some path
+// shows as a flush that never comes.
+type vRTStep[P any] struct {
+	kind  int // 0 gap, 1 small arrival (< send_batch_size), 2 big arrival (> max or >= size)
+	gap   time.Duration
+	tuple int
+	p     P
+	n     int
+}
+
 func vTimeoutCases[T any, P any](t *testing.T, out *vOut, rng *vRand, sg vSignal[T, P], n int) {
+	var wg sync.WaitGroup
 	for c := 0; c < n; c++ {
-		cfg := &Config{Timeout: 30 * time.Millisecond, SendBatchSize: 1000, SendBatchMaxSize: 0}
-		sink := &vSink{perTuple: map[string]int{}}
-		bp, consume, err := sg.newProc(cfg, func(ctx context.Context, d T) error {
-			ir := sg.read(d)
-			sink.add(vExport{tuple: "[]", items: sg.items(ir), at: time.Now()})
-			return nil
-		})
-		if err != nil {
-			t.Fatal(err)
+		const timeout = 20 * time.Millisecond
+		size := 5 + rng.Intn(5)
+		max := 0
+		if rng.Intn(100) < 60 {
+			max = size + rng.Intn(3)
 		}
-		_ = bp.Start(context.Background(), componenttest.NewNopHost())
+		keyed := rng.Intn(3) == 0
+		cfg := &Config{Timeout: timeout, SendBatchSize: uint32(size), SendBatchMaxSize: uint32(max)}
+		var keysLow []string
+		cfgTerm := fmt.Sprintf("(HC 20 false %d %d [] 0)", size, max)
+		if keyed {
+			cfg.MetadataKeys = []string{"k1"}
+			keysLow = []string{"k1"}
+			cfgTerm = fmt.Sprintf("(HC 20 false %d %d [%s] 0)", size, max, vStr("k1"))
+		}
 		g := &vGen{r: rng}
-		total := 0
-		var want []string
-		t0 := time.Now()
-		for i := 0; i < 1+rng.Intn(3); i++ {
-			p := sg.gen(g)
-			want = append(want, sg.items(p)...)
-			total += len(sg.items(p))
-			_ = consume(context.Background(), sg.build(p))
+		var script []vRTStep[P]
+		var hist []string
+		for i := 0; i < 3+rng.Intn(3); i++ {
+			st := vRTStep[P]{kind: rng.Pick(3, 4, 2), tuple: rng.Pick(3, 1)}
+			switch st.kind {
+			case 0:
+				st.gap = time.Duration(1+rng.Intn(3))*timeout + 10*time.Millisecond
+				hist = append(hist, fmt.Sprintf("gap(%v)", st.gap))
+			case 1:
+				st.n = 1 + rng.Intn(size-1)
+				st.p = sg.mk(g, st.n)
+				hist = append(hist, fmt.Sprintf("small(%d,t%d)", st.n, st.tuple))
+			case 2:
+				st.n = size + rng.Intn(size)
+				if max > 0 {
+					st.n = max + 1 + rng.Intn(size-1)
+				}
+				st.p = sg.mk(g, st.n)
+				hist = append(hist, fmt.Sprintf("big(%d,t%d)", st.n, st.tuple))
+			}
+			script = append(script, st)
+			out.Stat(fmt.Sprintf("%s.real_timer_step_%d", sg.name, st.kind), 1)
 		}
-		// generous deadline: the machine may be loaded; only "never flushed" is a failure
-		wait := 15 * time.Second
-		if vTimerBroken {
-			wait = time.Second
+		out.Stat(sg.name+".real_timer_runs", 1)
+		if keyed {
+			out.Stat(sg.name+".real_timer_runs_keyed", 1)
 		}
-		ok := vWait(func() bool { return sink.totalCount() >= total }, 30*time.Millisecond+wait)
-		el := time.Since(t0)
-		if !ok {
-			vTimerBroken = true
-			out.Oracle("timeout-flush", "(CValidate (HC 30 false 1000 0 [] 0) 0)%N",
-				fmt.Sprintf("%s: %d items pending, timeout 30 ms, nothing emitted after %v (no further arrival, no shutdown)", sg.name, total-sink.totalCount(), el))
-		}
-		out.Stat(sg.name+".real_timeout_runs", 1)
-		if total > 0 {
-			out.Stat(fmt.Sprintf("%s.real_timeout_flush_within_ms_%04d", sg.name, int(el/time.Millisecond)/50*50+50), 1)
-		}
-		_ = bp.Shutdown(context.Background())
-		var got []string
-		for _, e := range sink.exports {
-			got = append(got, e.items...)
-		}
-		if !vEqStrings(got, want) {
-			out.Oracle("conservation", "(CValidate (HC 30 false 1000 0 [] 0) 0)%N", sg.name+" (real timeout run): "+vDiff(got, want))
-		}
+		term := "(CValidate " + cfgTerm + " 0)%N"
+		wg.Add(1)
+		go func() {
+			defer wg.Done()
+			sink := &vSink{perTuple: map[string]int{}}
+			bp, consume, err := sg.newProc(cfg, func(ctx context.Context, d T) error {
+				ir := sg.read(d)
+				sink.add(vExport{tuple: vCtxTuple(ctx, keysLow), items: sg.items(ir), at: time.Now()})
+				return nil
+			})
+			if err != nil {
+				out.Oracle("stuck", term, "cannot create the processor: "+err.Error())
+				return
+			}
+			_ = bp.Start(context.Background(), componenttest.NewNopHost())
+			accepted := map[string]int{}
+			var want []string
+			for i, st := range script {
+				if st.kind == 0 {
+					time.Sleep(st.gap)
+					continue
+				}
+				md := map[string][]string{"k1": {vValPool[st.tuple]}}
+				tp := vTupleOf(md, keysLow)
+				ctx := client.NewContext(context.Background(), client.Info{Metadata: client.NewMetadata(md)})
+				for _, it := range sg.items(st.p) {
+					want = append(want, tp+"|"+it)
+				}
+				accepted[tp] += st.n
+				cdone := make(chan error, 1)
+				go func() { cdone <- consume(ctx, sg.build(st.p)) }()
+				select {
+				case <-cdone:
+				case <-time.After(vDL(20 * time.Second)):
+					vStuck()
+					out.Oracle("stuck", term, fmt.Sprintf("%s: Consume did not return within 20 s; history %s", sg.name, strings.Join(hist[:i+1], " ")))
+					return
+				}
+				wait := 15 * time.Second
+				if vTimerBroken.Load() {
+					wait = time.Second
+				}
+				t0 := time.Now()
+				if !vWait(func() bool { return sink.count(tp) >= accepted[tp] }, timeout+wait) {
+					vTimerBroken.Store(true)
+					out.Oracle("timeout-flush", term, fmt.Sprintf("%s: %d items of tuple %s pending (send_batch_size %d, timeout %v), not emitted after %v without further arrival; history: %s",
+						sg.name, accepted[tp]-sink.count(tp), tp, size, timeout, time.Since(t0).Round(time.Millisecond), strings.Join(hist[:i+1], " ")))
+					break
+				}
+				out.Stat(fmt.Sprintf("%s.real_timer_flush_within_ms_%04d", sg.name, int(time.Since(t0)/time.Millisecond)/50*50+50), 1)
+			}
+			done := make(chan struct{})
+			go func() { _ = bp.Shutdown(context.Background()); close(done) }()
+			select {
+			case <-done:
+			case <-time.After(vDL(20 * time.Second)):
+				vStuck()
+				out.Oracle("stuck", term, fmt.Sprintf("%s: Shutdown did not return within 20 s; history %s", sg.name, strings.Join(hist, " ")))
+				return
+			}
+			var got []string
+			sink.mu.Lock()
+			for _, e := range sink.exports {
+				for _, it := range e.items {
+					got = append(got, e.tuple+"|"+it)
+				}
+				if max > 0 && len(e.items) > max {
+					out.Oracle("max-size", term, fmt.Sprintf("%s (real timer run): batch of %d items, max %d", sg.name, len(e.items), max))
+				}
+			}
+			sink.mu.Unlock()
+			sort.Strings(got)
+			sort.Strings(want)
+			if !vEqStrings(got, want) {
+				out.Oracle("conservation", term, sg.name+" (real timer run, history "+strings.Join(hist, " ")+"): "+vDiff(got, want))
+			}
+		}()
 	}
+	wg.Wait()
 }
 
 // ---- (4) concurrent producers: conservation, bound and isolation on the emitted multiset ---------------
 func vConcurrentCases[T any, P any](t *testing.T, out *vOut, rng *vRand, sg vSignal[T, P], n int) {
 	for c := 0; c < n; c++ {
+		if vStuckN.Load() >= 5 {
+			out.Stat(sg.name+".concurrent_skipped_after_stuck", 1)
+			continue
+		}
 		timeoutReal := time.Duration(0)
 		if rng.Bool() {
 			timeoutReal = time.Duration(1+rng.Intn(5)) * time.Millisecond // the real timer fires during the run
 		}
 		vc := vGenCfg(rng, timeoutReal, 1)
+		fam := rng.Intn(len(vValFamilies))
 		sink := &vSink{perTuple: map[string]int{}}
 		bp, consume, err := sg.newProc(vc.cfg, func(ctx context.Context, d T) error {
 			ir := sg.read(d)
-			sink.add(vExport{tuple: vCtxTuple(ctx, vc.keysLow), items: sg.items(ir), at: time.Now()})
+			sink.add(vExport{extra: vCtxExtra(ctx, vc.keysLow), tuple: vCtxTuple(ctx, vc.keysLow), items: sg.items(ir), at: time.Now()})
 			return nil
 		})
 		if err != nil {
@@ -688,7 +873,7 @@ func vConcurrentCases[T any, P any](t *testing.T, out *vOut, rng *vRand, sg vSig
 			g := &vGen{r: rng, next: uint64(pr) * 100000}
 			var work []one
 			for i := 0; i < 6+rng.Intn(10); i++ {
-				md, _ := vGenMD(rng)
+				md, _ := vGenMD(rng, fam)
 				p := sg.gen(g)
 				work = append(work, one{md, p, sg.items(p)})
 			}
@@ -712,19 +897,32 @@ func vConcurrentCases[T any, P any](t *testing.T, out *vOut, rng *vRand, sg vSig
 				}
 			}()
 		}
-		wg.Wait() // every Consume has returned: shutdown begins afterwards
+		// every Consume has returned: shutdown begins afterwards
+		pdone := make(chan struct{})
+		go func() { wg.Wait(); close(pdone) }()
+		select {
+		case <-pdone:
+		case <-time.After(vDL(60 * time.Second)):
+			vStuck()
+			out.Oracle("stuck", "(CValidate "+vc.term+" 0)%N", "concurrent run: producers still blocked in Consume after 60 s (a shard no longer takes items)")
+			continue
+		}
 		done := make(chan struct{})
 		go func() { _ = bp.Shutdown(context.Background()); close(done) }()
 		term := "(CValidate " + vc.term + " 0)%N"
 		select {
 		case <-done:
-		case <-time.After(30 * time.Second):
+		case <-time.After(vDL(30 * time.Second)):
+			vStuck()
 			out.Oracle("stuck", term, "Shutdown did not return within 30 s (concurrent run)")
 		}
 		var emittedTagged []string
 		tuples := map[string]bool{}
 		for _, e := range sink.exports {
 			tuples[e.tuple] = true
+			if e.extra != "" {
+				out.Oracle("export-metadata", term, "concurrent run: export context carries unconfigured keys: "+e.extra)
+			}
 			for _, it := range e.items {
 				emittedTagged = append(emittedTagged, e.tuple+"|"+it)
 			}
@@ -799,9 +997,9 @@ func TestVerifC17(t *testing.T) {
 
 	vValidateCases(out, vNewRand(1721), vBudget(60, 5))
 
-	vTimeoutCases(t, out, vNewRand(1731), lg, vBudget(3, 4))
-	vTimeoutCases(t, out, vNewRand(1732), tr, vBudget(3, 4))
-	vTimeoutCases(t, out, vNewRand(1733), mt, vBudget(3, 4))
+	vTimeoutCases(t, out, vNewRand(1731), lg, vBudget(6, 4))
+	vTimeoutCases(t, out, vNewRand(1732), tr, vBudget(6, 4))
+	vTimeoutCases(t, out, vNewRand(1733), mt, vBudget(6, 4))
 
 	vConcurrentCases(t, out, vNewRand(1741), lg, vBudget(6, 20))
 	vConcurrentCases(t, out, vNewRand(1742), tr, vBudget(6, 20))
